@@ -4,7 +4,7 @@ From Coq Require Import ZifyBool ZifyNat Lia Permutation.
 From IV Require Import Proofs.HooksThms.
 Theorem deny_literal_mail : forall c s sz o code text,
   st s = READY -> sz <> SzBad ->
-  (match sz with SzVal n => (n <= max_bytes c)%Z | _ => True end) ->
+  (match sz with SzVal n => (n <= max_bytes c /\ n <= int32_max)%Z | _ => True end) ->
   step c s (L (Mail (MParsed sz (Some o)) (Deny code text))) = Ok s (one code) [].
-Proof. exact HooksThms.deny_literal_mail. Qed.
+Proof. first [exact HooksThms.deny_literal_mail | intros; apply HooksThms.deny_literal_mail]. Qed.
 Print Assumptions deny_literal_mail.
